@@ -4,6 +4,7 @@
 # 2. confirm in the worktree: suite green with the change; demo fails with it, passes without
 # 3. apply the patch to /repo, run every quick check, restore /repo
 id="$1"; wt="/tmp/seed-$id"; out="/verif/seeded/$id"
+if [ -n "$ROUND" ]; then wt="/tmp/seed$ROUND-$id"; out="/verif/seeded/$id-r$ROUND"; export CARGO_TARGET_DIR="$wt/target"; fi
 [ -d "$wt" ] || { echo "no worktree $wt"; exit 2; }
 mkdir -p "$out"
 git -C "$wt" diff -- src > "$out/patch.diff"
@@ -34,6 +35,7 @@ echo "demo exit with change: $with ; without: $without"
 fi
 [ "$PHASE" = "A" ] && { echo "{\"id\": \"$id\", \"demo_exit_with_change\": $with, \"demo_exit_without_change\": $without}" > "$out/verify-demo.json"; exit 0; }
 echo "== my checks against the change"
+unset CARGO_TARGET_DIR
 cd "${REPO_DIR:-/repo}" || exit 2
 git diff --quiet || { echo "refusing: /repo dirty"; exit 2; }
 git apply "$out/patch.diff" || { echo "patch does not apply to /repo"; exit 2; }
